@@ -1,8 +1,29 @@
 (* Property C01 — a call runs the definition more specific than every other applicable one.
    This file holds the property theorems only; each is closed by `exact` of a lemma proved in Proofs/.
-   The full statement C01_dispatch (model's resolve on update's tables = specification, for every well-formed
-   registry, every legal tuple, every shape) is added below once Proofs/ResolveProofs.v is assembled. *)
-From Y2 Require Import Model.Registry Model.Compile Spec.Dispatch Proofs.WalkProofs Proofs.SpecProofs.
+
+   Reading guide.  R : registry is what the three catalogs hold when update runs (Model/Registry.v).  compile R
+   models update (Model/Compile.v, mirrored on detail/compiler.hpp); resolve C mi acts models method::resolve
+   (core.hpp) on the installed dispatch data, acts giving for each formal parameter either the v-table pointer of the
+   argument's dynamic class (virtual) or nothing (non-virtual).  spec_dispatch (Spec/Dispatch.v) is the documented
+   rule.  word_of_outcome mi (Run i) is definition i's thunk, the two error outcomes are the method's two stubs. *)
+From Y2 Require Import Model.Registry Model.Compile Spec.Dispatch.
+From Y2 Require Import Proofs.Interfaces Proofs.WalkProofs Proofs.SpecProofs Proofs.ResolveProofs Proofs.CompileProofs.
+
+(* C01_dispatch: for EVERY well-formed registry (any inheritance graph, any split of the registrations, any methods
+   and definitions), every method of it, every placement of virtual and non-virtual parameters (m_shape) and every
+   legal tuple of dynamic classes, the word the call path reads from update's tables is the one the documented rule
+   designates.  No bound on classes, methods, definitions or arity. *)
+Theorem C01_dispatch : forall R C mi m args,
+  wf_registry R -> compile R = Ok C -> nth_error (r_methods R) mi = Some m -> legal R m args ->
+  exists cs, map (key (o_lat C)) cs = args /\
+             resolve C mi (actuals_of C (m_shape m) cs) = Ok (word_of_outcome mi (spec_dispatch R (meth_defs R m) args)).
+Proof. exact dispatch_correct. Qed.
+Print Assumptions C01_dispatch.
+
+(* update itself never fails, and never runs out of the model's fuel, on a well-formed registry *)
+Theorem C01_update_total : forall R, wf_registry R -> exists C, compile R = Ok C /\ o_fuel_ok C = true.
+Proof. exact compile_total. Qed.
+Print Assumptions C01_update_total.
 
 (* What "the definition that runs" means: spec_dispatch says Run i exactly when definition i is applicable
    (each of its virtual parameter classes is the argument's class or one of its bases) and more specific than
@@ -33,3 +54,20 @@ Theorem C01_nonvirtual_parameters_transparent :
      else resolve_multi_first C (length (cm_vp m)) ss shape' (actuals_of C shape' cs)).
 Proof. exact resolve_shape_irrelevant. Qed.
 Print Assumptions C01_nonvirtual_parameters_transparent.
+
+(* Non-vacuity: the registry of probe P1 (a diamond-with-a-tail lattice, a two-parameter method with a non-virtual
+   parameter between the virtual ones, three definitions) is compiled, and calls resolve as the rule says
+   (classes are designated by their index in update's class table: id 3 is index 2, and so on). *)
+Definition ex_R : registry :=
+  mk_reg [mk_class 1 [1] false; mk_class 2 [2;1] false; mk_class 3 [3;2;1] false; mk_class 4 [4;1] false;
+          mk_class 5 [5;3;4;2;1] false; mk_class 6 [6] false; mk_class 7 [7;6] false; mk_class 8 [8;7;6] false]%N
+         [mk_meth [1;6]%N [mk_def [2;8]%N true; mk_def [4;7]%N true; mk_def [3;6]%N true] [true; false; true]] [].
+Example C01_example :
+  match compile ex_R with
+  | Ok C => resolve C 0 (actuals_of C [true; false; true] [2; 6]) = Ok (WFn 0 2) /\
+            resolve C 0 (actuals_of C [true; false; true] [3; 6]) = Ok (WFn 0 1) /\
+            resolve C 0 (actuals_of C [true; false; true] [3; 5]) = Ok (WNi 0) /\
+            resolve C 0 (actuals_of C [true; false; true] [4; 7]) = Ok (WAmb 0)
+  | Err _ => False
+  end.
+Proof. vm_compute. repeat split. Qed.
